@@ -54,14 +54,19 @@ def count_digits(number: NumericValueType) -> tuple[int, int]:
         integer_part, _, decimal_part = number.partition('.')
         return len(integer_part.lstrip('0')), len(decimal_part.rstrip('0'))
 
-    significand = significand.strip('0')
-    exponent = int(_exponent)
+    integer_part, _, decimal_part = significand.partition('.')
+    exponent = int(_exponent) - len(decimal_part)
+    digits = (integer_part + decimal_part).lstrip('0')
+    if not digits:
+        return 0, 0
+    elif exponent >= 0:
+        return len(digits) + exponent, 0
 
-    num_digits = len(significand) - 1 if '.' in significand else len(significand)
-    if exponent > 0:
-        return num_digits + exponent, 0
-    else:
-        return 0, num_digits - exponent - 1
+    trailing_zeros = min(len(digits) - len(digits.rstrip('0')), -exponent)
+    if trailing_zeros:
+        digits = digits[:-trailing_zeros]
+        exponent += trailing_zeros
+    return max(0, len(digits) + exponent), -exponent
 
 
 def strictly_equal(obj1: object, obj2: object) -> bool:
